@@ -286,6 +286,28 @@ pub fn edge_place(ins: &Ins, regs: &Regs, k: u64) -> Regs {
     // memory, and offset FFFFh of whatever segment the operand has -- a word there goes on with the next linear byte)
     let mode = k % 8;
     let target: u32 = [0xFFFFFu32, 0xFFFFE, 0x100000, 0x100001, 0x2FFFF, 0x0FFFF, 0x9FFFF, 0][mode as usize];
+    // implicit operands: the elements of a string instruction (DS:SI, ES:DI) and the table byte of XLAT (DS:BX+AL) are
+    // placed the same way (seeded change C09-n: the second byte of a word element read at FFFFFh without the wrap)
+    if matches!(ins, Ins::Str { .. } | Ins::Xlat) {
+        let t: u32 = if mode == 7 { 0xFFFFD } else { target };
+        let mut ptrs: Vec<(&str, &str)> = Vec::new();
+        if matches!(ins, Ins::Xlat) {
+            ptrs.push(("ds", "bx"));
+        } else {
+            match (k / 8) % 3 { 0 => ptrs.push(("ds", "si")), 1 => ptrs.push(("es", "di")), _ => { ptrs.push(("ds", "si")); ptrs.push(("es", "di")); } }
+        }
+        for (segreg, ptr) in ptrs {
+            let extra: u32 = if matches!(ins, Ins::Xlat) { (r.get("ax") & 0xFF) as u32 } else { 0 };
+            let off = (r.get(ptr) as u32 + extra) % 65536;
+            let delta = (t % 16 + 16 - off % 16) % 16;
+            r.set(ptr, r.get(ptr).wrapping_add(delta as u16));
+            let off = (off + delta) % 65536;
+            if t >= off && (t - off) % 16 == 0 && (t - off) / 16 <= 0xFFFF {
+                r.set(segreg, ((t - off) / 16) as u16);
+            }
+        }
+        return r;
+    }
     for o in opnds {
         if mode == 7 {
             if let Opnd::Mem { base, index, disp, .. } = o {
